@@ -175,7 +175,60 @@ def child(vs, order_seed, n, hashseed):
     return json.loads(line[0][8:]), None
 
 
+def declaration_probes(rec):
+    """Param-classes written in the ways a dataclass user would write them: every field that can be given to the constructor
+    is a parameter (named, compared, delivered), or the declaration is refused."""
+    import hdl21 as h
+    from hdl21.qualname import qualname
+
+    decls = {
+        "annotation-only": lambda: type("BusParams", (), {"__annotations__": {"width": int}, "n": h.Param(dtype=int, desc="n", default=0)}),
+        "annotation-with-default": None,  # (a plain class attribute: refused by the existing attribute check; built below)
+        "annotated-param": lambda: type("BusParams", (), {"__annotations__": {"width": int}, "width": h.Param(dtype=int, desc="w", default=1),
+                                                            "n": h.Param(dtype=int, desc="n", default=0)}),
+        "annotation-only-single": lambda: type("BusParams", (), {"__annotations__": {"width": int}}),
+    }
+    decls["annotation-with-default"] = lambda: type("BusParams", (), {"__annotations__": {"width": int}, "width": 4, "n": h.Param(dtype=int, desc="n", default=0)})
+    for dname, mk in decls.items():
+        rec.count("declarations.probed")
+        case = {"kind": "declaration", "decl": dname}
+        rec.case(key=f"decl:{dname}", nontrivial=True, sample=case)
+        try:
+            PC = h.paramclass(mk())
+        except Exception:
+            rec.count("declarations.refused")
+            if dname == "annotated-param":
+                rec.violation("good-paramclass-refused", "a Param with a (redundant) annotation was refused", case=case)
+            continue
+        rec.count("declarations.accepted")
+        bodies = []
+
+        def G(p: PC) -> h.Module:
+            bodies.append(p)
+            m = h.Module()
+            m.add(h.Port(width=p.width), name="a")
+            return m
+
+        G.__name__ = f"DeclGen_{dname.replace('-', '_')}"
+        gen = h.generator(G)
+        try:
+            ms = [gen(width=w) for w in (1, 2, 1)]
+        except Exception:
+            rec.count("declarations.call-refused")
+            continue
+        rec.count("declarations.called")
+        if ms[0] is not ms[2]:
+            rec.violation("equal-params-two-modules", f"paramclass declared with {dname}: two calls with width=1 returned two modules", case=case)
+        if ms[0] is ms[1]:
+            rec.violation("unequal-params-one-module", f"paramclass declared with {dname}: width=1 and width=2 returned one Module", case=case)
+        elif qualname(ms[0]) == qualname(ms[1]):
+            rec.violation("unequal-params-one-name", f"paramclass declared with {dname}: width=1 and width=2 give two Modules (port widths "
+                          f"{ms[0].a.width}, {ms[1].a.width}) with one exported name '{qualname(ms[0])}'", case=case, declaration=dname)
+
+
 def run(ctx, rec):
+    if ctx.shard == 0:
+        declaration_probes(rec)
     n = 420 if ctx.quick else 2000
     nproc = 4 if ctx.quick else 16
     vs = ctx.seed * 100 + ctx.shard
